@@ -29,6 +29,7 @@ func c01Bounds(a *vlib.Args) (maxNodes, level int) {
 
 func c01(a *vlib.Args) {
 	r := vlib.NewResult("C01", a)
+	bigOffsetFamily = true
 	maxNodes, level := c01Bounds(a)
 	var want c01replay
 	if a.Replay != "" {
@@ -90,7 +91,7 @@ func c01(a *vlib.Args) {
 	r.Bounds["tags"] = tree.TagAlphabet
 	r.Bounds["routes"] = int(specio.NRoutes)
 	r.Bounds["space_total_trees"] = total
-	r.Rule = fmt.Sprintf("every value tree with <=%d nodes (leaves from a %d-value boundary alphabet over all 15 scalar kinds; list/message/struct containers; messages with every ordered selection of distinct tags from %v = every write order) plus parametric families F1-F6 (element/field counts 0..60 and 250..260, tag bases, filler sizes 65500..65560 across the 64K offset boundary, nesting depth 1..20, big/small switch per reason, varint size edges), each built through %d construction routes (pooled, explicit+Free, buffer, raw Any, Copy/Merge, generic typed) and read back through every accessor incl. absent-tag probes; distinct by construction, non-trivial = more than one node", maxNodes, len(tree.Leaves(level)), tree.TagAlphabet, int(specio.NRoutes))
+	r.Rule = fmt.Sprintf("every value tree with <=%d nodes (leaves from a %d-value boundary alphabet over all 15 scalar kinds; list/message/struct containers; messages with every ordered selection of distinct tags from %v = every write order) plus parametric families F1-F8 (F8: a 16 MiB filler pushing later offsets across 2^24; element/field counts 0..60 and 250..260, tag bases, filler sizes 65500..65560 across the 64K offset boundary, nesting depth 1..20, big/small switch per reason, varint size edges), each built through %d construction routes (pooled, explicit+Free, buffer, raw Any, Copy/Merge, generic typed) and read back through every accessor incl. absent-tag probes; distinct by construction, non-trivial = more than one node", maxNodes, len(tree.Leaves(level)), tree.TagAlphabet, int(specio.NRoutes))
 	r.Write(a)
 }
 
